@@ -257,6 +257,8 @@ def worker(job):
                 s.discard_exploration = v0
             except Exception as e:     # noqa
                 tr.fail('C12', 'toggling discard_exploration raised %s' % type(e).__name__)
+    if prop == 'C01':
+        T.direct_c01(tr, s)     # final state, also for configurations that skip the per-snapshot predicate
     if prop == 'C10':
         c10_direct(tr, s)
     if prop == 'C12':
@@ -350,7 +352,9 @@ def run_family(run: Run, prop, n_runs, forces=None, extras=None):
     jobs = []
     for i in range(n_runs):
         force = dict(forces[i % len(forces)]) if forces else {}
-        force.setdefault('max_seconds', 14 if run.tier == 'quick' else 40)
+        # deterministic cap on the number of batches; the wall-clock cap is only a safety net (it would make coverage depend on load)
+        force.setdefault('max_batches', 260 if run.tier == 'quick' else 900)
+        force.setdefault('max_seconds', 60 if run.tier == 'quick' else 240)
         cfg = T.make_config(rng, i, run.tier, force)
         jobs.append((cfg, prop, extras))
     # watchdog: a run() that never returns must not hang the check
